@@ -33,6 +33,33 @@ idf_output_string(ostream &out, const string &str, char whitespace) {
 }
 
 /**
+ * Reads the contents of a string of the indicated length, following the one
+ * character of whitespace after the length.  The length comes from the file
+ * and may be wrong if the file is damaged: a negative length, or one that
+ * exceeds what is left of the input, sets the stream's failbit rather than
+ * asking for an absurd amount of memory or reading beyond the end.
+ */
+static void
+read_string_contents(istream &in, int length, string &str) {
+  str = "";
+  if (length < 0) {
+    in.setstate(std::ios::failbit);
+    return;
+  }
+
+  in.get();
+  while (length > 0) {
+    int ch = in.get();
+    if (ch == EOF) {
+      in.setstate(std::ios::failbit);
+      return;
+    }
+    str += (char)ch;
+    length--;
+  }
+}
+
+/**
  * Reads the given string from the input file, as previously written by
  * output_string().
  */
@@ -45,12 +72,7 @@ idf_input_string(istream &in, string &str) {
   }
 
   // Skip one character of whitespace, and then read the string.
-  in.get();
-  str = "";
-  while (length > 0) {
-    str += in.get();
-    length--;
-  }
+  read_string_contents(in, length, str);
 }
 
 /**
@@ -87,14 +109,15 @@ idf_input_string(istream &in, const char *&str) {
   }
 
   // Skip one character of whitespace, and then read the string.
-  in.get();
-  char *readstr = new char[length + 1];
-  int p = 0;
-  while (p < length) {
-    readstr[p] = in.get();
-    p++;
+  string contents;
+  read_string_contents(in, length, contents);
+  if (in.fail()) {
+    return;
   }
-  readstr[p] = '\0';
+
+  char *readstr = new char[contents.length() + 1];
+  memcpy(readstr, contents.data(), contents.length());
+  readstr[contents.length()] = '\0';
 
   str = readstr;
 }
